@@ -4,6 +4,7 @@ import (
 	"bytes"
 	"fmt"
 	"io"
+	"strings"
 
 	"github.com/gobwas/ws"
 
@@ -48,6 +49,19 @@ func frameCut(c *mon.C, shapes []gen.Shape, side ref.Side, offsets []int, flavou
 				// (plain, buffered, part-consumed buffered, Read-only): the verdicts do not depend on it
 				wrap := drive.Wraps[(off+fl+c.I)%len(drive.Wraps)]
 				ch := drive.WrapSource(xport.NewCutter(stream, p, off, endErr), wrap)
+				if fl == 0 && (off+c.I)%2 == 0 {
+					// the bytes received so far sit in memory (an application that accumulates what it reads and
+					// parses afterwards): sources that know how much they hold - bytes.Reader, bytes.Buffer,
+					// strings.Reader offer Len() - end like any other
+					switch (off / 2) % 3 {
+					case 0:
+						ch, wrap = bytes.NewReader(stream[:off]), "bytes.Reader"
+					case 1:
+						ch, wrap = bytes.NewBuffer(append([]byte(nil), stream[:off]...)), "bytes.Buffer"
+					case 2:
+						ch, wrap = strings.NewReader(string(stream[:off])), "strings.Reader"
+					}
+				}
 				var got []ref.Frame
 				var err error
 				for k := 0; k <= len(frames)+1; k++ {
